@@ -233,6 +233,7 @@ func Run(c Case) (sig, msg string, oc Outcome) {
 		harness.ExitHung()
 	}
 	if psig != "" {
+		oc.Peer = pres // what the peer had sent when the Session crashed (C03 replays it)
 		return psig, pmsg, oc
 	}
 	oc.Choices, oc.Peer, oc.LibWritten, oc.Stats, oc.Err, oc.Box = pres.Choices, pres, el.Written(), stats, lerr, box
@@ -484,6 +485,18 @@ func GenCase(t *rapid.T) Case {
 		if rapid.IntRange(0, 2).Draw(t, "pq") == 0 {
 			c.Peer.Challenge = rapid.StringMatching(`[0-9]{8}`).Draw(t, "challenge")
 			c.Lib.Password = rapid.StringMatching(`[!-~]{1,12}`).Draw(t, "password")
+			if rapid.IntRange(0, 2).Draw(t, "small_token") == 0 {
+				// a challenge whose 30 bit value has fewer than eight decimal digits (about one in a hundred has):
+				// the answer needs its zero padding
+				start := rapid.IntRange(0, 99999999).Draw(t, "challenge_from")
+				for i := 0; i < 20000; i++ {
+					ch := fmt.Sprintf("%08d", (start+i)%100000000)
+					if secure.Value(ch, c.Lib.Password) < 10000000 {
+						c.Peer.Challenge = ch
+						break
+					}
+				}
+			}
 			c.Lib.AuxPw = map[string]string{}
 			for _, a := range c.Lib.Aux {
 				if rapid.Bool().Draw(t, "auxpw") {
